@@ -539,8 +539,53 @@ class Exec:
             else:
                 self.env[i] = sym.binop("<<" if kind == "shl" else ">>", e0, off)
 
+    def _step_in_condition(self, node):
+        """for (...; j-- > 0; ) / while (n-- > 0): the step is part of the test.  Rewritten to the equivalent counted loop
+        `j += d; for (; (j - d) > 0; j += d)` (post form; the pre form tests the new value), which runs the same iterations
+        with the same values of j in the body and leaves j at the same final value."""
+        cond = node.get("c")
+        if not (isinstance(cond, dict) and cond.get("k") == "bin" and cond.get("op") in ("<", "<=", ">", ">=", "!=")):
+            return None
+        for side, other in (("a", "b"), ("b", "a")):
+            u = cond[side]
+            while isinstance(u, dict) and u.get("k") == "cast" and u.get("ck") in ("LValueToRValue", "NoOp", "IntegralCast"):
+                u = u["a"]
+            if isinstance(u, dict) and u.get("k") == "un" and u.get("op") in ("++", "--") and isinstance(u.get("a"), dict) \
+                    and u["a"].get("k") == "ref" and self._tracked_ref(u["a"]) and not self._is_ptr_ref(u["a"]):
+                ref = u["a"]
+                ids_other = {n.get("id") for n in walk(cond[other]) if n.get("k") == "ref"}
+                asg, _ = assigned_ids([node.get("body"), node.get("inc")])
+                if ref["id"] in ids_other or ref["id"] in asg:
+                    return None
+                d = 1 if u["op"] == "++" else -1
+                l = node["l"]
+                tested = ref if not u.get("post") else {"k": "bin", "op": "-", "a": ref, "b": {"k": "int", "v": str(d), "l": l, "t": "int"},
+                                                       "l": l, "t": ref.get("t", "int")}
+                c2 = dict(cond)
+                c2[side] = tested
+                step = {"k": "un", "op": u["op"], "a": ref, "post": False, "l": l, "t": ref.get("t", "int")}
+                inc = node.get("inc")
+                inc2 = step if inc is None else {"k": "bin", "op": ",", "a": inc, "b": step, "l": l, "t": ref.get("t", "int")}
+                return ref, d, {"k": "for", "init": None, "c": c2, "inc": inc2, "body": node.get("body"), "l": l}
+        return None
+
     def do_for(self, node, out):
         init, cond, inc, body = node.get("init"), node.get("c"), node.get("inc"), node.get("body")
+        if inc is None and cond is not None and cond.get("k") == "bin" and (init is None or init.get("k") in ("decl", "assign")) and \
+                any(isinstance(cond.get(sd), dict) and cond[sd].get("k") == "un" and cond[sd].get("op") in ("++", "--") for sd in ("a", "b")):
+            if init is not None:
+                if init.get("k") == "decl":
+                    self.block(init, out)
+                else:
+                    self.ev(init, out, stmt=True)
+                node = dict(node, init=None)
+                init = None
+            sc = self._step_in_condition(node)
+            if sc is not None:
+                ref, d, node2 = sc
+                self.env[ref["id"]] = sym.add(self.env[ref["id"]], I(d))
+                out.append({"e": "local", "name": ref["n"], "id": ref["id"], "op": "++" if d > 0 else "--", "val": self.env[ref["id"]], "l": node["l"]})
+                return self.do_for(node2, out)
         parts = []
 
         def flat_comma(nd):
@@ -719,6 +764,13 @@ class Exec:
         self.forget_stores_in(scratch)
 
     def do_while(self, node, out):
+        if node.get("k") == "while":
+            sc = self._step_in_condition(node)
+            if sc is not None:
+                ref, d, node2 = sc
+                self.env[ref["id"]] = sym.add(self.env[ref["id"]], I(d))
+                out.append({"e": "local", "name": ref["n"], "id": ref["id"], "op": "++" if d > 0 else "--", "val": self.env[ref["id"]], "l": node["l"]})
+                return self.do_for(node2, out)
         self.dry_forget([node.get("body")])
         self.havoc([node.get("c"), node.get("body")])
         b = []
@@ -1113,6 +1165,38 @@ class Exec:
                     self.remember(lvt, None)
         return r
 
+    def _std_algorithm(self, e, name, args, out):
+        """std::fill / fill_n / copy / copy_n over raw pointers are the element loops they stand for:
+        for u in [0, count): first[u] = value   resp.   dest[u] = first[u]"""
+        an = [a for a in e.get("args", []) if isinstance(a, dict)]
+        if len(args) != 3 or len(an) != 3 or any(a is None for a in args):
+            return False
+        ptr = lambda n_: strip_cv(n_.get("t", "")).endswith("*")
+        if name in ("std::fill", "std::copy"):
+            if not (ptr(an[0]) and ptr(an[1])):
+                return False
+            (pa, oa), (pb, ob) = sym.ptr_split(args[0]), sym.ptr_split(args[1])
+            if pa != pb:
+                return False
+            count = sym.sub(ob, oa)
+        else:
+            if not ptr(an[0]):
+                return False
+            count = args[1]
+        if name in ("std::copy", "std::copy_n") and not ptr(an[2]):
+            return False
+        Exec.serial += 1
+        u = sym.sym("u%d@%d" % (Exec.serial, e["l"]))
+        first = args[0]
+        if name in ("std::fill", "std::fill_n"):
+            st = {"e": "store", "lv": sym.idx(first, u), "op": "=", "val": args[2], "l": e["l"], "t": "", "ct": ""}
+        else:
+            st = {"e": "store", "lv": sym.idx(args[2], u), "op": "=", "val": sym.idx(first, u), "l": e["l"], "t": "", "ct": ""}
+        out.append({"e": "loop", "var": u, "lo": ZERO, "cmp": "<", "hi": count, "step": I(1), "body": [st], "l": e["l"],
+                    "name": "u", "algorithm": name})
+        self.forget_stores_in([st])
+        return True
+
     def emit_call(self, e, name, args, out, this=None, array=None):
         usr = e.get("cusr")
         line = e["l"]
@@ -1124,6 +1208,11 @@ class Exec:
                 return args[0]
             if len(args) == 1 and args[0] is not None:
                 return args[0]     # copy construction
+        if name in ("std::fill", "std::fill_n", "std::copy", "std::copy_n") and self._std_algorithm(e, name, args, out):
+            if name == "std::fill":
+                return None
+            Exec.serial += 1
+            return ("unk", "%s-result:%d" % (name, Exec.serial))
         if name in NORETURN_NAMES or e.get("noreturn") or self.hooks.is_noreturn(self, name, usr):
             out.append({"e": "call", "name": name, "usr": usr, "args": args, "l": line, "ret": None, "this": this,
                         "noreturn": True})
